@@ -96,6 +96,12 @@ func concHandler(w *workerCtx, line []byte) (any, error) {
 		os.Chtimes(p, t, t)
 	}
 	os.Symlink("f00", filepath.Join(src, "lnk"))
+	if s.Same {
+		// identical targets: many directories that every session finds missing and creates (check-then-create races)
+		for i := 0; i < 60; i++ {
+			os.MkdirAll(filepath.Join(src, "z", fmt.Sprintf("%02d", i), "q"), 0o755)
+		}
+	}
 	mods := []rsyncd.Module{{Name: "src", Path: src}}
 	nDst := s.N + 1
 	for i := 0; i < nDst; i++ {
